@@ -1,6 +1,7 @@
 use crate::beatree::Key;
 use core::ops::Range;
 use crossbeam_channel::{Receiver, Sender, TryRecvError};
+use std::collections::btree_map::Entry;
 
 use super::{ChangedNodeEntry, NodesTracker};
 
@@ -191,7 +192,26 @@ pub fn request_range_extension<Node>(
         }
     }
 
-    nodes_tracker.inner.extend(response.changed);
+    for (key, entry) in response.changed {
+        match nodes_tracker.inner.entry(key) {
+            Entry::Vacant(vacant) => {
+                vacant.insert(entry);
+            }
+            Entry::Occupied(mut occupied) => {
+                // We already created a node with this separator while merging rightwards. The
+                // received entry can only record the deletion of the previous node with that
+                // separator and must not replace ours.
+                let ours = occupied.get_mut();
+                if ours.deleted.is_none() {
+                    ours.deleted = entry.deleted;
+                }
+                if ours.inserted.is_none() {
+                    ours.inserted = entry.inserted;
+                    ours.next_separator = entry.next_separator;
+                }
+            }
+        }
+    }
 
     if let Some(new_right_neighbor) = response.new_right_neighbor {
         worker_params.right_neighbor = new_right_neighbor;
